@@ -299,3 +299,20 @@ pub fn skip_ip_header(v6: bool, packet: &[u8]) -> Option<(i32, Vec<u8>)> {
 
 #[allow(dead_code)]
 fn _unused(_: &dyn datagram_pipe::DuplexPipe, _: &downstream::UdpDatagramMeta) {}
+
+// ---------------------------------------------------------------------------------------
+// ClientHello random extraction
+
+/// `TlsListener::extract_client_random`: `(0, Some(random))` found, `(1, None)` need more, `(2, None)` not found
+pub fn extract_client_random(data: &[u8]) -> (u8, Option<Vec<u8>>) {
+    crate::tls_listener::TlsListener::verif_extract_client_random(data)
+}
+
+/// The real `read_client_random_and_wrap_stream` on an accepted TCP stream, then the wrapped
+/// stream drained with the given read sizes: (random, prebuffer length, all bytes read back)
+pub async fn read_client_random_and_replay(
+    stream: tokio::net::TcpStream,
+    read_sizes: Vec<usize>,
+) -> io::Result<(Option<Vec<u8>>, usize, Vec<u8>)> {
+    crate::tls_listener::TlsListener::verif_read_and_replay(stream, read_sizes).await
+}
